@@ -5,8 +5,10 @@
 (* of capacity InCap into which frames are put with a NON-BLOCKING Enqueue     *)
 (* (demux.go: select { case d.in <- f: default: drop }); a demux goroutine     *)
 (* holds one frame while it hands it to its client with a blocking send; the   *)
-(* connection's client is a buffered channel of DataCap frames that Conn.Read  *)
-(* drains one frame per call.                                                  *)
+(* client of the root and port demux is a chain goroutine (unbuffered channel) *)
+(* that enqueues the frame into the next demux; the connection's client is a   *)
+(* buffered channel of DataCap frames that Conn.Read drains one frame per call.*)
+(* AgwpeTrace.tla drives this module with the library's own debug log.         *)
 (*                                                                           *)
 (* Enqueue = "drop"  is the implementation (named deviation DropWhenFull);     *)
 (* Enqueue = "block" is the flow-controlled design.                            *)
@@ -21,16 +23,19 @@ CONSTANTS K,         \* frames the TNC sends for this connection
           Enqueue,   \* "drop" or "block"
           ReaderIdle \* the application does not read until everything was sent
 
-VARIABLES next,      \* next frame the TNC read loop will enqueue into stage 1
+VARIABLES next,      \* next frame the TNC read loop will read from the socket
+          pend,      \* frame the read loop has read and not yet enqueued (0 = none)
           inq,       \* [1..Stages -> Seq(frame)]  demux input channels
-          held,      \* [1..Stages -> frame or 0]  frame a demux goroutine is handing on
+          held,      \* [1..Stages -> frame or 0]  frame a demux goroutine is handing to its client
+          chain,     \* [1..Stages-1 -> frame or 0] frame the chain goroutine between stage s and s+1 has received
           data,      \* the connection's data channel
           got,       \* frames read by the application
           dropped    \* frames dropped by a full input channel
 
-vars == <<next, inq, held, data, got, dropped>>
+vars == <<next, pend, inq, held, chain, data, got, dropped>>
 
-Init == /\ next = 1 /\ inq = [s \in 1..Stages |-> <<>>] /\ held = [s \in 1..Stages |-> 0]
+Init == /\ next = 1 /\ pend = 0 /\ inq = [s \in 1..Stages |-> <<>>] /\ held = [s \in 1..Stages |-> 0]
+        /\ chain = [s \in 1..(Stages - 1) |-> 0]
         /\ data = <<>> /\ got = <<>> /\ dropped = {}
 
 (* put frame f into the input channel of stage s (from the TNC loop or from the chain goroutine of stage s-1) *)
@@ -39,37 +44,46 @@ Put(s, f, inqv) ==
     ELSE IF Enqueue = "drop" THEN [ok |-> TRUE, inq |-> inqv, drop |-> TRUE]
     ELSE [ok |-> FALSE, inq |-> inqv, drop |-> FALSE]                  \* blocking: not enabled now
 
-TncReads ==
-    /\ next <= K
-    /\ LET r == Put(1, next, inq) IN
+(* the TNC read loop: read a frame from the socket (agwpe.go: t.read), then Enqueue it into the root demux *)
+TncRead ==
+    /\ next <= K /\ pend = 0
+    /\ pend' = next /\ next' = next + 1 /\ UNCHANGED <<inq, held, chain, data, got, dropped>>
+TncEnqueue ==
+    /\ pend # 0
+    /\ LET r == Put(1, pend, inq) IN
        /\ r.ok /\ inq' = r.inq
-       /\ dropped' = IF r.drop THEN dropped \cup {next} ELSE dropped
-    /\ next' = next + 1 /\ UNCHANGED <<held, data, got>>
+       /\ dropped' = IF r.drop THEN dropped \cup {pend} ELSE dropped
+    /\ pend' = 0 /\ UNCHANGED <<next, held, chain, data, got>>
 
 (* a demux goroutine takes a frame from its input channel *)
 Take(s) ==
     /\ held[s] = 0 /\ inq[s] # <<>>
     /\ held' = [held EXCEPT ![s] = Head(inq[s])] /\ inq' = [inq EXCEPT ![s] = Tail(@)]
-    /\ UNCHANGED <<next, data, got, dropped>>
+    /\ UNCHANGED <<next, pend, chain, data, got, dropped>>
 
-(* ... and hands it on: to the next stage's Enqueue (through the chain goroutine) or, at the last stage, to the data channel *)
-Forward(s) ==
+(* ... and hands it to its client with a blocking send: the chain goroutine of the next stage (unbuffered channel: the *)
+(* chain goroutine must be idle) or, at the last stage, the connection's buffered data channel                          *)
+Hand(s) ==
     /\ held[s] # 0
     /\ IF s < Stages
-         THEN LET r == Put(s + 1, held[s], inq) IN
-              /\ r.ok /\ inq' = r.inq
-              /\ dropped' = IF r.drop THEN dropped \cup {held[s]} ELSE dropped
-              /\ UNCHANGED data
-         ELSE /\ Len(data) < DataCap /\ data' = Append(data, held[s])    \* blocking send to the buffered client channel
-              /\ UNCHANGED <<inq, dropped>>
-    /\ held' = [held EXCEPT ![s] = 0] /\ UNCHANGED <<next, got>>
+         THEN /\ chain[s] = 0 /\ chain' = [chain EXCEPT ![s] = held[s]] /\ UNCHANGED data
+         ELSE /\ Len(data) < DataCap /\ data' = Append(data, held[s]) /\ UNCHANGED chain
+    /\ held' = [held EXCEPT ![s] = 0] /\ UNCHANGED <<next, pend, inq, got, dropped>>
+
+(* the chain goroutine enqueues the frame into the next demux (non-blocking in the implementation) *)
+ChainEnqueue(s) ==
+    /\ chain[s] # 0
+    /\ LET r == Put(s + 1, chain[s], inq) IN
+       /\ r.ok /\ inq' = r.inq
+       /\ dropped' = IF r.drop THEN dropped \cup {chain[s]} ELSE dropped
+    /\ chain' = [chain EXCEPT ![s] = 0] /\ UNCHANGED <<next, pend, held, data, got>>
 
 AppReads ==
-    /\ data # <<>> /\ (ReaderIdle => next > K)
+    /\ data # <<>> /\ (ReaderIdle => next > K /\ pend = 0)
     /\ got' = Append(got, Head(data)) /\ data' = Tail(data)
-    /\ UNCHANGED <<next, inq, held, dropped>>
+    /\ UNCHANGED <<next, pend, inq, held, chain, dropped>>
 
-Next == TncReads \/ (\E s \in 1..Stages : Take(s) \/ Forward(s)) \/ AppReads
+Next == TncRead \/ TncEnqueue \/ (\E s \in 1..Stages : Take(s) \/ Hand(s)) \/ (\E s \in 1..(Stages - 1) : ChainEnqueue(s)) \/ AppReads
 Spec == Init /\ [][Next]_vars
 
 InOrderNoLossNoDup == \A i \in 1..Len(got) : got[i] = i
